@@ -77,7 +77,7 @@ type RRoute struct {
 	Verb    string  `json:"verb"`
 	Path    []RPart `json:"path"`
 	Handler int     `json:"handler"`
-	ViaCtrl int     `json:"viactrl"` // which controller variable is used for method values
+	ViaCtrl int     `json:"viactrl"`      // which controller variable is used for method values
 	Mw      int     `json:"mw,omitempty"` // number of trailing middleware arguments (echo: GET(path, h, m ...MiddlewareFunc))
 }
 
